@@ -228,6 +228,9 @@ type vfRunPlan struct {
 	CapsA []int     `json:"capsA"` // records per pass-A window (cycled); 0 = no cap
 	CapsB []int     `json:"capsB"` // pairs per pass-B window (cycled); 0 = no cap
 	Stop  *vfStopAt `json:"stop,omitempty"`
+	// WriteFault: at the n-th "A.scanned"/"B.scanned" (a window has been computed, its flush comes next) the data
+	// file of that pass is swapped for a read-only handle: the flush fails like on a full or failing disk
+	WriteFault *vfStopAt `json:"writeFault,omitempty"`
 }
 
 type vfEvent struct {
@@ -243,6 +246,7 @@ type vfRunResult struct {
 	nonAdvancing string // set when a window did not advance (resume would never terminate)
 	plotErr      error
 	mapAAtRemove *vlib.Failure
+	faultFired   bool
 }
 
 var vfHookMu sync.Mutex // one plot with hooks at a time per process
@@ -258,6 +262,8 @@ func vfPlot(mdb *MassDBV1, plan vfRunPlan, ref *vfRef, pkHash pocutil.Hash) *vfR
 	iterA, iterB := 0, 0
 	counts := map[string]int{}
 	var lastStartA, lastStartB int64 = -1, -1
+	var swapped *HashMap
+	var orig, roHandle *os.File
 	stopTriggered := false
 	triggerStop := func() {
 		if stopTriggered {
@@ -329,10 +335,27 @@ func vfPlot(mdb *MassDBV1, plan vfRunPlan, ref *vfRef, pkHash pocutil.Hash) *vfR
 		if plan.Stop != nil && plan.Stop.Point == name && counts[name] == plan.Stop.Nth {
 			triggerStop()
 		}
+		if plan.WriteFault != nil && !res.faultFired && plan.WriteFault.Point == name && counts[name] == plan.WriteFault.Nth {
+			hm := &mdb.HashMapB.HashMap
+			if name == "A.scanned" && mdb.HashMapA != nil {
+				hm = &mdb.HashMapA.HashMap
+			}
+			if hm.data != nil {
+				if ro, err := os.Open(hm.data.Name()); err == nil {
+					swapped, orig, roHandle = hm, hm.data, ro
+					hm.data = ro
+					res.faultFired = true
+				}
+			}
+		}
 	}
 	defer func() { VerifCacheCap, VerifPoint = nil, nil }()
 	res.plotErr = <-mdb.Plot()
 	mdb.wg.Wait()
+	if swapped != nil {
+		swapped.data = orig
+		roHandle.Close()
+	}
 	return res
 }
 
